@@ -562,6 +562,7 @@ impl VerifFs for SimFs {
                 if self.trace.len() - self.budget_base >= self.budget {
                     panic!("{}", BUDGET_PANIC);
                 }
+                self.fired.ioerr += 1;
                 self.push(Eff::Fail { class: Class::Read, target: name, errno, injected: true });
                 return Err(os_err(errno));
             }
@@ -587,7 +588,7 @@ impl VerifFs for SimFs {
                 return Err(os_err(fault.errno));
             }
             n = n.min(fault.consumed.max(1));
-            self.fired.ioerr += 1;
+            // the fault counts as fired only when the error itself is delivered (next read of this handle)
             if fault.persistent {
                 self.sticky.push((Class::Read, name.clone(), fault.errno));
             } else {
